@@ -25,6 +25,7 @@ ASSUMPTIONS = [
 ]
 
 MODES = ["burst", "settle", "gated", "mw-gated", "slow-gated"]
+EXTRA_MODES = ["real-upload"]  # a real FileUploadHandler (size limit 16, tokens) behind the protocol: several reasons to refuse at once
 
 
 def split_at(data: bytes, cuts) -> list[bytes]:
@@ -53,6 +54,17 @@ def _run(data: bytes, cuts, mode: str, uploads: bool = True):
                                              "meta": "text/gemini", "body": "BODY", "gate": gated})
         up = srvsim.build_upload(sim, {"kind": "value", "status": 20, "meta": "text/gemini", "body": "STORED",
                                        "gate": gated}) if uploads else None
+        if mode == "real-upload" and uploads:
+            import shutil
+            import tempfile
+
+            from nauyaca.server.handler import FileUploadHandler
+            from vlib import scratch
+
+            updir = tempfile.mkdtemp(dir=scratch.root(), prefix="c07-up-")
+            real = FileUploadHandler(upload_dir=updir, max_size=16, auth_tokens={"good"}, allowed_types=["text/gemini", "text/plain"])
+            up = real  # handed over as it is (the protocol may look at its attributes); responses are what is compared here
+            loop.call_later(10**6, shutil.rmtree, updir, True)
         tr = FakeTransport(loop)
         mw = srvsim.build_middleware(sim, [{"kind": "allow", "gate": True}]) if mode == "mw-gated" else None
         proto = GeminiServerProtocol(handler, mw, up)
@@ -145,6 +157,14 @@ LONG_REQS = [
     b"gemini://example.org/\xc3\r\ntitan://example.org/late.gmi;size=4\r\nDATA",  # ... then a well-formed upload
     b"gemini://u@example.org/\r\ngemini://example.org/second\r\n",             # refused line (user-info), then a well-formed one
     b"http://example.org/\r\ntitan://example.org/late.gmi;size=4\r\nDATA",
+    b"\r\ngemini://localhost/page\r\nextra",                                       # an empty first line, then a well-formed request
+    b"\r\n\r\ntitan://example.org/late.gmi;size=4\r\nDATA",
+]
+REAL_UPLOAD_REQS = [
+    b"titan://example.org/f.txt;size=40;token=wrong\r\n" + b"x" * 40,                 # too large AND a wrong token
+    b"titan://example.org/f.txt;size=40;mime=image/png;token=good\r\n" + b"x" * 40,   # too large AND a type that is not allowed
+    b"titan://example.org/f.txt;size=5;mime=image/png\r\nhello",                      # no token AND a type that is not allowed
+    b"titan://example.org/f.txt;size=5;token=good\r\nhello",                          # fine
 ]
 
 
@@ -161,6 +181,9 @@ def enum_exhaustive(tier):
 
 
 def enum_cuts12(tier):
+    for data in REAL_UPLOAD_REQS:
+        for c in range(1, len(data)):
+            yield {"data": b2s(data), "cuts": [c], "mode": "real-upload"}
     for data in LONG_REQS + MID_REQS:
         n = len(data)
         pos = list(range(1, n))
